@@ -535,7 +535,7 @@ class DifferentialEvolutionHyperbandScheduler(SynchronousHyperbandCommon):
 
     def _report_as_failed(self, ext_slot: ExtendedSlotInRung):
         result_failed = ext_slot.slot_in_rung()
-        result_failed.metric_val = np.NAN
+        result_failed.metric_val = np.nan
         self.bracket_manager.on_result((ext_slot.bracket_id, result_failed))
 
     def on_trial_result(self, trial: Trial, result: Dict[str, Any]) -> str:
